@@ -202,7 +202,7 @@ func main() {
 		c.D.Rule = "encoder reconstruction planes (hook) = specification decoder's pre-filter planes of the emitted bytes = Go decoder's pre-filter planes; = webp.Decode planes at FilterStrength 0; dimensions = source dimensions; serial and parallel encoder paths"
 		rng := c.Rng.Fork()
 		sizes := [][2]int{{1, 1}, {15, 17}, {16, 16}, {33, 65}, {64, 64}, {17, 1}, {1, 33}, {48, 32}, {31, 31}, {64, 17}, {40, 80}, {72, 56}}
-		n := 110
+		n := 90
 		if c.Thorough() {
 			n = 1500
 			sizes = append(sizes, [2]int{128, 128}, [2]int{100, 130}, [2]int{255, 63}, [2]int{200, 90})
